@@ -182,10 +182,11 @@ impl Property for C04 {
     }
 
     fn required_probes(&self) -> Vec<&'static str> {
-        vec!["batch_gt_1", "last_group_partial", "batch_gt_n", "bitwise_equal", "stateful_optimizer", "with_validation", "dropout_configured", "second_learn_call"]
+        vec!["batch_gt_1", "last_group_partial", "batch_gt_n", "bitwise_equal", "stateful_optimizer", "with_validation", "dropout_configured", "second_learn_call", "scale_stratum"]
     }
 
     fn generate(&self, rng: &mut Rng, _tier: Tier) -> Case {
+        begin_case(rng);
         let mut sc = super::c05::gen_scenario(rng, false);
         if rng.chance(0.2) {
             // validation data whose early-stopping tolerance can never trigger: training
